@@ -105,7 +105,7 @@ class Pairs(Part):
             for a, b in table:
                 for r in range(reps):
                     va, vb = concretise(ctx.rng, [a, b], dim)
-                    cases.append({"kind": "pair", "a": va, "b": vb})
+                    cases.append({"kind": "pair", "a": va, "b": vb, "relocated": ctx.rng.random() < 0.25})
         return cases
 
     def run_case(self, ctx, case):
@@ -113,6 +113,12 @@ class Pairs(Part):
         va, vb = case["a"], case["b"]
         pa, pb = project([va, vb])
         a, b = Individual(list(va)), Individual(list(vb))
+        if case.get("relocated"):
+            # the design was somewhere else first and has been hashed there (as offspring are before mutation replaces their vector)
+            a = Individual([v + 1.0 for v in va])
+            hash(a)
+            len({a})
+            a.vector = list(va)
         ev = {"ev": "pair", "a": pa, "b": pb, "exc": "", "eq_ab": False, "eq_ba": False, "hash_eq": False,
               "a_in_b": False, "setsize": 0, "removed_a": False}
 
